@@ -1233,3 +1233,43 @@ V(id='c37-benign-both-reordered', prop='C37', file='mpmath/libmp/libmpf.py',
          ("def python_mpf_mul_int(s, n, prec, rnd=round_fast):\n    \"\"\"Multiply by a Python integer.\"\"\"\n    sign, man, exp, bc = s\n",
           "def python_mpf_mul_int(s, n, prec, rnd=round_fast):\n    \"\"\"Multiply by a Python integer.\"\"\"\n    sign, man, exp, bc = s\n    assert prec >= 0\n")],
   expect='silent')
+
+# ---------------------------------------------------------------- C35 -------
+V(id='c35-maxcoeff-nonstrict', prop='C35', file='mpmath/identification.py',
+  old="                if max(abs(v) for v in vec) < maxcoeff:", new="                if max(abs(v) for v in vec) <= maxcoeff:",
+  expect='fire:Q-R1:pslq')
+V(id='c35-row-instead-of-column', prop='C35', file='mpmath/identification.py',
+  old="                vec = [int(round_fixed(B[j,i], prec) >> prec) for j in \\\n                range(1,n+1)]",
+  new="                vec = [int(round_fixed(B[i,j], prec) >> prec) for j in \\\n                range(1,n+1)]",
+  expect='fire:Q-R1:pslq')
+V(id='c35-residual-gate-loosened', prop='C35', file='mpmath/identification.py',
+  old="            if err < tol:\n                # We are done if the coefficients are acceptable",
+  new="            if err < 16*tol:\n                # We are done if the coefficients are acceptable",
+  expect='fire:Q-R1:pslq')
+V(id='c35-best-column-returned', prop='C35', file='mpmath/identification.py',
+  old="            err = abs(y[i])\n            # Maybe we are done?", new="            err = abs(y[1])\n            # Maybe we are done?",
+  expect='fire:Q-R1:pslq')
+V(id='c35-tol-scaled-before-extra', prop='C35', file='mpmath/identification.py',
+  edits=[("    extra = 60\n    prec += extra\n", "    tol = ctx.to_fixed(ctx.convert(tol) if tol is not None else ctx.mpf(2)**(-target), prec)\n    extra = 60\n    prec += extra\n"),
+         ("    tol = ctx.to_fixed(tol, prec)\n    assert tol\n", "    assert tol\n")],
+  expect='fire:Q-R2:pslq')
+V(id='c35-findpoly-degree-plus-one', prop='C35', file='mpmath/identification.py',
+  old="    for i in range(1,n+1):\n        xs.append(x**i)", new="    for i in range(1,n+2):\n        xs.append(x**i)",
+  expect='fire:Q-R3:findpoly')
+V(id='c35-findpoly-own-maxcoeff', prop='C35', file='mpmath/identification.py',
+  old="        a = ctx.pslq(xs, **kwargs)", new="        a = ctx.pslq(xs, kwargs.get('tol'), 10**6)",
+  expect='fire:Q-R3:findpoly')
+V(id='c35-identify-leading-zero-allowed', prop='C35', file='mpmath/identification.py',
+  old="            if r is not None and max(abs(uw) for uw in r) <= M and r[0]:\n                s = pslqstring(r, constants)",
+  new="            if r is not None and max(abs(uw) for uw in r) <= M:\n                s = pslqstring(r, constants)",
+  expect='fire:Q-R4:identify')
+V(id='c35-identify-product-ungated', prop='C35', file='mpmath/identification.py',
+  old="        if r is not None and max(abs(uw) for uw in r) <= M and r[0]:\n            addsolution(prodstring(r, logs))",
+  new="        if r is not None and r[0]:\n            addsolution(prodstring(r, logs))",
+  expect='fire:Q-R4:identify')
+V(id='c35-benign-rename-vec', prop='C35', file='mpmath/identification.py',
+  edits=[("                vec = [int(round_fixed(B[j,i], prec) >> prec) for j in \\\n                range(1,n+1)]",
+          "                rel = [int(round_fixed(B[j,i], prec) >> prec) for j in \\\n                range(1,n+1)]"),
+         ("                if max(abs(v) for v in vec) < maxcoeff:", "                if max(abs(v) for v in rel) < maxcoeff:"),
+         ("                    return vec", "                    return rel")],
+  expect='silent')
